@@ -440,6 +440,9 @@ type CliSchedCase struct {
 	Stdin     bool        `json:"stdin"` // the (single) input arrives on standard input
 	StdinMode string      `json:"stdin_mode,omitempty"`
 	ViaF      bool        `json:"via_f"`
+	// InPlace: -o names the (single, regular) input file itself: the rules run
+	// over what the file held; only then is it overwritten
+	InPlace bool `json:"in_place,omitempty"`
 }
 
 func runCliSched(cc *CliSchedCase, keep bool) Outcome {
@@ -495,12 +498,20 @@ func runCliSched(cc *CliSchedCase, keep bool) Outcome {
 		o.Skipped = "outside model domain: " + model.Why
 		return finish()
 	}
+	if cc.InPlace && len(pc.Inputs) == 1 && pc.Inputs[0].Kind == "regular" && len(mfiles[0].Values) > 0 {
+		pc.OMode = "inplace"
+		o.Probes["o_names_the_input"]++
+	}
 	res, trouble := runBinary(pc, "")
 	if trouble != nil {
 		o.Class, o.Msg = "harness", trouble.Error()
 		return finish()
 	}
 	log.add('P', 0, "EXEC exit=%d stdout_len=%d stderr=%q", res.exit, len(res.stdout), truncate(res.stderr, 200))
+	if pc.OMode == "inplace" && res.exit != 0 && strings.Contains(res.stderr, "error writing JSON") && res.stdout == model.Text() {
+		// the rules ran as they should; the final value could not be written as JSON (not C02's matter)
+		return finish()
+	}
 	o.Nontrivial = len(model.Lines) >= 2
 	o.Shape = fmt.Sprintf("cli-sched|files=%d|stdin=%v%s|rules=%d", len(mfiles), cc.Stdin, cc.StdinMode, bucketLen(len(c.Prog.Rules)))
 	if res.signaled || crashSignature(res.stderr) {
@@ -531,7 +542,7 @@ func genCliSchedCase(t *Tape) *CliSchedCase {
 		seen[c.Files[i].Name] = true
 	}
 	sanitizeSelectors(c)
-	cc := &CliSchedCase{Stream: c, ViaF: t.Chance(1, 3)}
+	cc := &CliSchedCase{Stream: c, ViaF: t.Chance(1, 3), InPlace: t.Chance(1, 5)}
 	if len(c.Files) == 1 && t.Chance(1, 3) {
 		cc.Stdin = true
 		cc.StdinMode = []string{"", "offset", "pipe"}[t.Draw(3)]
